@@ -108,6 +108,7 @@ int __wrap_poll(struct pollfd *fds, nfds_t n, int timeout)
     }
     for (nfds_t i = 0; i < n; i++)
         fds[i].revents = i < (nfds_t) fp.nrevs ? fp.revs[i] : 0;
+    errno = EAGAIN;             /* errno is unspecified after a successful call: xpoll() promises 0 to its callers */
     return fp.rv;
 }
 
